@@ -55,12 +55,8 @@ func (t *ktracer) middleware(mw *mwSpec) frugal.ServiceMiddleware {
 		return func(svc reflect.Value, m reflect.Method, args frugal.Arguments) frugal.Results {
 			method := lowerFirst(m.Name)
 			tok := args.Context().CorrelationID()
-			t.add(tok, event{mw.ID, "enter", method, renderList(args)})
-			pass := args
-			if mw.RW == rwArg && len(args) > 0 {
-				pass = append(frugal.Arguments{args[0]}, rwArgs(mw, method, []interface{}(args[1:]))...)
-			}
-			res := next(svc, m, pass)
+			t.add(tok, event{mw.ID, "enter", method, withCtx(renderList(args), ctxDesc(args.Context()))})
+			res := next(svc, m, passOn(mw, method, args))
 			t.add(tok, event{mw.ID, "exit", method, renderList(res)})
 			return frugal.Results(rwRes(mw, method, []interface{}(res)))
 		}
@@ -158,7 +154,7 @@ func (mon *monitor) runConcurrentRPC(idx int, legKind string, goroutines, calls 
 		if key == "" {
 			key = cid
 		}
-		kt.add(key, event{"handler", "call", c.Method, renderList(c.Args) + " cid=" + cid})
+		kt.add(key, event{"handler", "call", c.Method, withCtx(renderList(c.Args), ctxDescOf(time.Duration(c.Timeout), c.ReqHdrs)) + " cid=" + cid})
 		res := handlerFn(c.Method, "", c.Args)
 		o := &e2e.Outcome{Err: resErr(res)}
 		if len(res) == 2 {
@@ -199,9 +195,10 @@ func (mon *monitor) runConcurrentRPC(idx int, legKind string, goroutines, calls 
 				call := tokenCall(concurrentMethods[(g+i)%len(concurrentMethods)], n)
 				args := call.Args()
 				var exp []event
-				a := foldIn(&exp, clientChain, call.Method, args)
-				a = foldIn(&exp, serverChain, call.Method, a)
-				exp = append(exp, event{"handler", "call", call.Method, renderList(a) + " cid=" + tok})
+				cm := &ctxModel{TO: 8 * time.Second}
+				a := foldIn(&exp, clientChain, call.Method, cm, args)
+				a = foldIn(&exp, serverChain, call.Method, cm, a)
+				exp = append(exp, event{"handler", "call", call.Method, withCtx(renderList(a), cm.String()) + " cid=" + tok})
 				res := handlerFn(call.Method, "", a)
 				res = foldOut(&exp, serverChain, call.Method, res)
 				res = cross(call.Method, res)
@@ -274,7 +271,7 @@ func (mon *monitor) runConcurrentScope(idx, goroutines, calls int) {
 		a := []interface{}{v}
 		cid := ctx.CorrelationID()
 		key := tokenOfArgs("subscribe"+op, a)
-		kt.add(key, event{"callback", "call", "subscribe" + op, renderList(a) + " cid=" + cid})
+		kt.add(key, event{"callback", "call", "subscribe" + op, withCtx(renderList(a), ctxDesc(ctx)) + " cid=" + cid})
 		return resErr(subscriberFn(op, true, a))
 	}
 	es := mainsvc.NewEventsErrorableSubscriber(subProvider, kt.list(cfg.SubCtor)...)
@@ -315,9 +312,10 @@ func (mon *monitor) runConcurrentScope(idx, goroutines, calls int) {
 					pargs = []interface{}{user, req}
 				}
 				var exp []event
-				a := foldIn(&exp, pubChain, pm, pargs)
-				sa := foldIn(&exp, subChain, sm, []interface{}{a[len(a)-1]})
-				exp = append(exp, event{"callback", "call", sm, renderList(sa) + " cid=" + tok})
+				cm := &ctxModel{TO: 5 * time.Second}
+				a := foldIn(&exp, pubChain, pm, cm, pargs)
+				sa := foldIn(&exp, subChain, sm, cm, []interface{}{a[len(a)-1]})
+				exp = append(exp, event{"callback", "call", sm, withCtx(renderList(sa), cm.String()) + " cid=" + tok})
 				sres := foldOut(&exp, subChain, sm, subscriberFn(op, true, sa))
 				_ = sres
 				want := renderList(foldOut(&exp, pubChain, pm, []interface{}{nil}))
